@@ -1,2 +1,309 @@
+"""Fail-closed translation of decision tables / constants in /repo into Gallina (DESIGN §2.3 (T)).
+Every function here raises TranslationError on any construct it does not recognise."""
+import ast
+import os
+
+
+class TranslationError(Exception):
+    pass
+
+
+def _src(repo, rel):
+    return open(os.path.join(repo, rel)).read()
+
+
+def _find_func(tree, cls, name):
+    for node in ast.walk(tree):
+        if isinstance(node, ast.ClassDef) and node.name == cls:
+            for f in node.body:
+                if isinstance(f, ast.FunctionDef) and f.name == name:
+                    return f
+    raise TranslationError('function %s.%s not found' % (cls, name))
+
+
+def _find_toplevel_func(tree, name):
+    for node in tree.body:
+        if isinstance(node, ast.FunctionDef) and node.name == name:
+            return node
+    raise TranslationError('function %s not found' % name)
+
+
+def _tok(e):
+    return ast.unparse(e).replace('"', "'")
+
+
+# ------------------------------------------------------------------ generic symbolic execution of if-chains
+class SymExec:
+    """Executes a statement list whose control flow consists only of if/elif/else over tests of the
+    form  <expr> == <const>,  <expr> in {<const>, ...}; assignments bind names (or attributes) to the
+    source text of the right-hand side (after substituting already-bound names that are plain aliases).
+    Result: decision tree  ('if', (kind, subject_token, consts), then, else) | ('leaf', env)."""
+
+    def __init__(self, const_ok):
+        self.const_ok = const_ok  # function: ast expr -> python constant or raises
+
+    def cond(self, test, env):
+        if isinstance(test, ast.Compare) and len(test.ops) == 1:
+            subj = self.subject(test.left, env)
+            op, rhs = test.ops[0], test.comparators[0]
+            if isinstance(op, ast.Eq):
+                return ('eq', subj, [self.const_ok(rhs)])
+            if isinstance(op, ast.In) and isinstance(rhs, (ast.Set, ast.List, ast.Tuple)):
+                return ('in', subj, [self.const_ok(e) for e in rhs.elts])
+        raise TranslationError('unsupported test: ' + ast.unparse(test))
+
+    def subject(self, e, env):
+        t = _tok(e)
+        return env.get(t, t)
+
+    def run(self, stmts, env):
+        if not stmts:
+            return ('leaf', dict(env))
+        s, rest = stmts[0], stmts[1:]
+        if isinstance(s, ast.Expr) and isinstance(s.value, ast.Constant) and isinstance(s.value.value, str):
+            return self.run(rest, env)
+        if isinstance(s, ast.Pass):
+            return self.run(rest, env)
+        if isinstance(s, ast.Assign) and len(s.targets) == 1 and isinstance(s.targets[0], (ast.Name, ast.Attribute)):
+            env2 = dict(env)
+            env2[_tok(s.targets[0])] = self.value(s.value, env)
+            return self.run(rest, env2)
+        if isinstance(s, ast.If):
+            c = self.cond(s.test, env)
+            return ('if', c, self.run(list(s.body) + rest, env), self.run(list(s.orelse) + rest, env))
+        if isinstance(s, ast.Return):
+            env2 = dict(env)
+            if isinstance(s.value, ast.Tuple):
+                env2['__return__'] = tuple(self.value(e, env) for e in s.value.elts)
+            else:
+                env2['__return__'] = (self.value(s.value, env),)
+            return ('leaf', env2)
+        raise TranslationError('unsupported statement: ' + ast.unparse(s)[:80])
+
+    def value(self, e, env):
+        t = _tok(e)
+        if t in env:
+            return env[t]
+        if isinstance(e, ast.UnaryOp) and isinstance(e.op, ast.USub):
+            inner = self.value(e.operand, env)
+            return '-' + inner
+        return t
+
+
+def _emit_tree(tree, leaf_fn, cond_fn, indent='  '):
+    if tree[0] == 'leaf':
+        return indent + leaf_fn(tree[1])
+    _, c, t, f = tree
+    return ('%sif %s then\n%s\n%selse\n%s' % (indent, cond_fn(c), _emit_tree(t, leaf_fn, cond_fn, indent + '  '),
+                                             indent, _emit_tree(f, leaf_fn, cond_fn, indent + '  ')))
+
+
+# ------------------------------------------------------------------ ECOS.parse_result
+STATUS_TOK = {'CL_CONSTANTS.solved': 'Solved', 'CL_CONSTANTS.inaccurate': 'Inaccurate', 'CL_CONSTANTS.failed': 'Failed'}
+VALUE_TOK = {"solver_output['info']['pcost']": 'VPcost', 'np.inf': 'VInf', '-np.inf': 'VNegInf', 'np.nan': 'VNan'}
+LOAD_TOK = {"ECOS.load_variable_values(solver_output['x'], var_mapping)": 'true', 'dict()': 'false'}
+
+
+def _int_const(e):
+    if isinstance(e, ast.Constant) and isinstance(e.value, int) and not isinstance(e.value, bool):
+        return e.value
+    if isinstance(e, ast.UnaryOp) and isinstance(e.op, ast.USub) and isinstance(e.operand, ast.Constant) \
+            and isinstance(e.operand.value, int):
+        return -e.operand.value
+    raise TranslationError('expected integer literal: ' + ast.unparse(e))
+
+
+def gen_ecos_parse(repo):
+    tree = ast.parse(_src(repo, 'sageopt/coniclifts/problems/solvers/ecos.py'))
+    f = _find_func(tree, 'ECOS', 'parse_result')
+    se = SymExec(_int_const)
+    dt = se.run(list(f.body), {})
+    FLAG = "solver_output['info']['exitFlag']"
+
+    def cond(c):
+        kind, subj, consts = c
+        if subj != FLAG:
+            raise TranslationError('test on %s, expected the exit flag' % subj)
+        return '(existsb (Z.eqb flag) [%s])' % '; '.join('(%d)%%Z' % k for k in consts)
+
+    def leaf(env):
+        r = env.get('__return__')
+        if not r or len(r) != 3:
+            raise TranslationError('parse_result must return a 3-tuple')
+        st, vv, val = r
+        if st not in STATUS_TOK or vv not in LOAD_TOK or val not in VALUE_TOK:
+            raise TranslationError('unrecognised result tokens %r' % (r,))
+        return '(%s, %s, %s)' % (STATUS_TOK[st], VALUE_TOK[val], LOAD_TOK[vv])
+
+    body = _emit_tree(dt, leaf, cond)
+    # load_variable_values: pinned shape  x = hstack([x, 0]); var_values[name] = x[var_mapping[name]]
+    g = _find_func(tree, 'ECOS', 'load_variable_values')
+    stm = [s for s in g.body if not (isinstance(s, ast.Expr) and isinstance(s.value, ast.Constant))]
+    shape = [ast.unparse(s) for s in stm]
+    expect = ['x = np.hstack([x, 0])', 'var_values = dict()',
+              'for var_name in var_mapping:\n    var_values[var_name] = x[var_mapping[var_name]]', 'return var_values']
+    if shape != expect:
+        raise TranslationError('ECOS.load_variable_values changed: %r' % (shape,))
+    return ('(* GENERATED by harness/translator from sageopt/coniclifts/problems/solvers/ecos.py: ECOS.parse_result *)\n'
+            'From Coq Require Import ZArith List Bool.\nImport ListNotations.\n'
+            'Inductive status := Solved | Inaccurate | Failed.\n'
+            'Inductive valkind := VPcost | VInf | VNegInf | VNan.\n'
+            '(* (problem_status, problem_value kind, variable values loaded?) as a function of the ECOS exit flag *)\n'
+            'Definition ecos_parse (flag : Z) : status * valkind * bool :=\n' + body + '.\n'
+            '(* ECOS.load_variable_values: x is extended by one trailing 0, then indexed by the variable map *)\n'
+            'Definition ecos_load_appends_zero : bool := true.\n')
+
+
+# ------------------------------------------------------------------ Problem.__init__ / solve post-processing
+def gen_problem_solve(repo):
+    tree = ast.parse(_src(repo, 'sageopt/coniclifts/problems/problem.py'))
+    init = _find_func(tree, 'Problem', '__init__')
+    solve = _find_func(tree, 'Problem', 'solve')
+    # (a) sense handling of the objective vector in __init__
+    sense_if = None
+    for s in init.body:
+        if isinstance(s, ast.If) and 'self.c' in ast.unparse(s):
+            sense_if = s
+    if sense_if is None:
+        raise TranslationError('objective sense handling not found in Problem.__init__')
+
+    def cl_const(e):
+        t = _tok(e)
+        if t in ('CL_CONSTANTS.minimize', 'CL_CONSTANTS.maximize', 'CL_CONSTANTS.solved', 'CL_CONSTANTS.inaccurate',
+                 'CL_CONSTANTS.failed'):
+            return t
+        raise TranslationError('unexpected constant ' + t)
+    se = SymExec(cl_const)
+    dt = se.run([sense_if], {})
+
+    def cond_sense(c):
+        kind, subj, consts = c
+        if subj not in ('sense', 'self.objective_sense') or kind != 'eq':
+            raise TranslationError('unexpected sense test on ' + subj)
+        if consts == ['CL_CONSTANTS.minimize']:
+            return 'is_min'
+        if consts == ['CL_CONSTANTS.maximize']:
+            return '(negb is_min)'
+        raise TranslationError('unexpected sense constant')
+
+    def leaf_c(env):
+        v = env.get('self.c')
+        if v == 'c':
+            return 'false'
+        if v == '-c':
+            return 'true'
+        raise TranslationError('unexpected objective vector %r' % v)
+    body_c = _emit_tree(dt, leaf_c, cond_sense)
+    # (b) value post-processing in solve: the last If that assigns self.value
+    val_if = None
+    for s in solve.body:
+        if isinstance(s, ast.If) and 'self.value' in ast.unparse(s):
+            val_if = s
+    if val_if is None:
+        raise TranslationError('value post-processing not found in Problem.solve')
+    dt2 = se.run([val_if], {'self.status': 'self.status'})
+
+    def cond_val(c):
+        kind, subj, consts = c
+        if subj == 'self.status' and kind == 'in':
+            m = {'CL_CONSTANTS.solved': 'Solved', 'CL_CONSTANTS.inaccurate': 'Inaccurate', 'CL_CONSTANTS.failed': 'Failed'}
+            return '(existsb (status_eqb st) [%s])' % '; '.join(m[k] for k in consts)
+        return cond_sense(c)
+
+    def leaf_v(env):
+        v = env.get('self.value')
+        m = {'parsed_result[2]': 'PKeep', '-parsed_result[2]': 'PNegate', 'np.nan': 'PNan'}
+        if v not in m:
+            raise TranslationError('unexpected value expression %r' % v)
+        return m[v]
+    body_v = _emit_tree(dt2, leaf_v, cond_val)
+    # (c) value loading: pinned shape
+    load_if = None
+    for s in solve.body:
+        if isinstance(s, ast.If) and 'variable_values' in ast.unparse(s.test):
+            load_if = s
+    expect = ("if len(self.variable_values) > 0:\n    for v in self.all_variables:\n        if v.name in self.variable_values:\n"
+              "            var_val = self.variable_values[v.name]\n            v.value = var_val\nelse:\n"
+              "    for v in self.all_variables:\n        nans = np.nan * np.empty(v.shape)\n        v.value = nans")
+    if load_if is None or ast.unparse(load_if) != expect:
+        raise TranslationError('variable loading block of Problem.solve changed')
+    # (d) status and variable_values come straight from the solver interface
+    txt = [ast.unparse(s) for s in solve.body]
+    for need in ('self.status = parsed_result[0]', 'self.variable_values = parsed_result[1]',
+                 'parsed_result = solver_object.parse_result(raw_result, inv_data, self.variable_map)',
+                 'data, inv_data = solver_object.apply(self.c, self.A, self.b, self.K, options)',
+                 'return (self.status, self.value)'):
+        if need not in txt:
+            raise TranslationError('Problem.solve no longer contains: ' + need)
+    return ('(* GENERATED by harness/translator from sageopt/coniclifts/problems/problem.py *)\n'
+            'From Coq Require Import ZArith List Bool.\nFrom SageVerif Require Import Gen.GenEcosParse.\nImport ListNotations.\n'
+            'Definition status_eqb (a b : status) : bool :=\n'
+            '  match a, b with Solved, Solved | Inaccurate, Inaccurate | Failed, Failed => true | _, _ => false end.\n'
+            'Inductive post := PKeep | PNegate | PNan.\n'
+            '(* Problem.__init__: is the objective vector negated before it is handed to the solver? *)\n'
+            'Definition objective_negated (is_min : bool) : bool :=\n' + body_c + '.\n'
+            '(* Problem.solve: what happens to the value reported by the solver interface *)\n'
+            'Definition solve_value_post (st : status) (is_min : bool) : post :=\n' + body_v + '.\n')
+
+
+# ------------------------------------------------------------------ SAGE settings and constants
+def gen_settings(repo):
+    tree = ast.parse(_src(repo, 'sageopt/coniclifts/constraints/set_membership/sage_cones.py'))
+    settings = None
+    allowed = None
+    for node in tree.body:
+        if isinstance(node, ast.Assign) and len(node.targets) == 1 and isinstance(node.targets[0], ast.Name):
+            if node.targets[0].id == 'SETTINGS':
+                settings = ast.literal_eval(node.value)
+            if node.targets[0].id == '_ALLOWED_CONES_':
+                allowed = ast.literal_eval(node.value)
+    if settings is None or allowed is None:
+        raise TranslationError('SETTINGS / _ALLOWED_CONES_ not found')
+    keys = ['heuristic_reduction', 'presolve_trivial_age_cones', 'sum_age_force_equality', 'compact_dual', 'kernel_basis']
+    for k in keys:
+        if not isinstance(settings.get(k), bool):
+            raise TranslationError('SETTINGS[%s] missing or not bool' % k)
+    if sorted(settings) != sorted(keys + ['reduction_solver']):
+        raise TranslationError('SETTINGS keys changed: %r' % sorted(settings))
+    # the six setter functions in coniclifts/__init__.py must assign exactly their own key
+    t2 = ast.parse(_src(repo, 'sageopt/coniclifts/__init__.py'))
+    setters = {}
+    for node in t2.body:
+        if isinstance(node, ast.FunctionDef):
+            for s in ast.walk(node):
+                if isinstance(s, ast.Assign) and len(s.targets) == 1 and isinstance(s.targets[0], ast.Subscript):
+                    tgt = s.targets[0]
+                    if _tok(tgt.value).endswith('SETTINGS') and isinstance(tgt.slice, ast.Constant):
+                        setters.setdefault(node.name, []).append((tgt.slice.value, _tok(s.value)))
+    lines = ['(* GENERATED by harness/translator from sage_cones.py (SETTINGS, _ALLOWED_CONES_) and coniclifts/__init__.py *)',
+             'From Coq Require Import List Bool String.', 'Import ListNotations.', 'Open Scope string_scope.',
+             'Record settings := { heuristic_reduction : bool; presolve_trivial_age_cones : bool;',
+             '  sum_age_force_equality : bool; compact_dual : bool; kernel_basis : bool }.',
+             'Definition default_settings : settings := {| ' + '; '.join(
+                 '%s := %s' % (k, 'true' if settings[k] else 'false') for k in keys) + ' |}.',
+             'Definition default_reduction_solver : string := "%s".' % settings['reduction_solver'],
+             'Definition sage_allowed_cones : list string := [%s].' % '; '.join('"%s"' % c for c in sorted(allowed)),
+             '(* setter function name -> SETTINGS keys it assigns *)',
+             'Definition setters : list (string * list string) := [%s].' % '; '.join(
+                 '("%s", [%s])' % (fn, '; '.join('"%s"' % k for k, _ in kv)) for fn, kv in sorted(setters.items()))]
+    return '\n'.join(lines) + '\n'
+
+
+def gen_consts(repo):
+    src = _src(repo, 'sageopt/symbolic/signomials.py')
+    tree = ast.parse(src)
+    vals = {}
+    for node in tree.body:
+        if isinstance(node, ast.Assign) and len(node.targets) == 1 and isinstance(node.targets[0], ast.Name):
+            if node.targets[0].id in ('__EXPONENT_VECTOR_DECIMAL_POINTS__',):
+                vals[node.targets[0].id] = ast.literal_eval(node.value)
+    if '__EXPONENT_VECTOR_DECIMAL_POINTS__' not in vals or not isinstance(vals['__EXPONENT_VECTOR_DECIMAL_POINTS__'], int):
+        raise TranslationError('__EXPONENT_VECTOR_DECIMAL_POINTS__ not found')
+    return ('(* GENERATED by harness/translator from sageopt/symbolic/signomials.py *)\n'
+            'From Coq Require Import ZArith.\n'
+            'Definition exponent_decimal_points : Z := %d%%Z.\n' % vals['__EXPONENT_VECTOR_DECIMAL_POINTS__'])
+
+
 def generate(repo):
-    return {}
+    return {'GenEcosParse.v': gen_ecos_parse(repo), 'GenProblemSolve.v': gen_problem_solve(repo),
+            'GenSettings.v': gen_settings(repo), 'GenConsts.v': gen_consts(repo)}
